@@ -9,7 +9,7 @@ wt=/tmp/seedwt-$$
 git -C /repo worktree add --detach -q $wt HEAD || exit 3
 trap 'git -C /repo worktree remove --force '$wt' >/dev/null 2>&1' EXIT
 cd $wt
-place=$(head -1 "$d/demo_test.go" | sed -n 's|^// place at: *||p')
+place=$(head -1 "$d/demo_test.go" | sed -n 's|^// place at: *||p' | awk '{print $1}')
 [ -z "$place" ] && { echo "no place line"; exit 3; }
 # baseline: demo passes without the patch
 cp "$d/demo_test.go" "$place"
